@@ -48,6 +48,49 @@ const CONN_VALUES: [Option<&str>; 16] = [
     Some("TE, Keep-Alive"),
 ];
 
+/// Long Connection values: filler options ("X-Opt-nn") and one decisive option (or none)
+/// placed so that it starts at a given byte offset of the value, for offsets around 64, 128,
+/// 256 and 1024 and at the very end of values of up to 4000 bytes.
+fn long_conn_values() -> &'static Vec<&'static str> {
+    static V: OnceLock<Vec<&'static str>> = OnceLock::new();
+    V.get_or_init(|| {
+        let mut out: Vec<&'static str> = Vec::new();
+        let filler = |upto: usize| -> String {
+            // options separated by ", " whose total length is exactly `upto` (>= 4) and ends in ", "
+            let mut s = String::new();
+            let mut k = 0;
+            while s.len() + 12 <= upto {
+                s.push_str(&format!("X-Opt-{:02}, ", k % 100));
+                k += 1;
+            }
+            while s.len() + 3 <= upto {
+                s.push_str("x, ");
+            }
+            // pad the last option so that the length is exact
+            while s.len() < upto {
+                let at = s.len() - 2;
+                s.insert(at, 'x');
+            }
+            s
+        };
+        for decisive in ["close", "upgrade", "keep-alive", "Close", "zzz"] {
+            for start in [52usize, 58, 59, 60, 61, 62, 63, 64, 65, 66, 120, 127, 128, 129, 250, 256, 257, 1020, 1024, 1025, 3990] {
+                let v = format!("{}{}", filler(start), decisive);
+                out.push(Box::leak(v.into_boxed_str()));
+                if start <= 66 {
+                    // and with further options behind it
+                    let v = format!("{}{}, X-Tail-Option, X-Other", filler(start), decisive);
+                    out.push(Box::leak(v.into_boxed_str()));
+                }
+            }
+            // decisive option first, a long tail behind it
+            let v = format!("{}, {}", decisive, filler(200).trim_end_matches(", "));
+            out.push(Box::leak(v.into_boxed_str()));
+        }
+        out
+    })
+}
+
 fn request(path: &str, version: &str, conn: Option<&str>) -> Vec<u8> {
     let mut s = format!("GET {} HTTP/{}\r\nHost: t\r\n", path, version);
     if let Some(c) = conn {
@@ -102,6 +145,28 @@ fn cases(tier: Tier) -> &'static Vec<Case> {
                                 }
                             }
                         }
+                    }
+                }
+            }
+        }
+        // long Connection values: the decisive option anywhere in a value of up to 4000 bytes
+        for version in ["1.0", "1.1"] {
+            for cv in long_conn_values().iter() {
+                for (len, pos) in [(1usize, 0usize), (2, 0), (2, 1)] {
+                    for (tl, tail) in &tails {
+                        if *tl == "garbage" {
+                            continue;
+                        }
+                        let mut bytes = Vec::new();
+                        for i in 0..len {
+                            if i == pos {
+                                bytes.extend_from_slice(&request(&format!("/v{}", i), version, Some(cv)));
+                            } else {
+                                bytes.extend_from_slice(&get(&format!("/k{}", i)));
+                            }
+                        }
+                        bytes.extend_from_slice(tail);
+                        v.push(Case { class: format!("http{}-long-connection-value", version), bytes, half_close: false, deferred: false });
                     }
                 }
             }
@@ -288,7 +353,7 @@ impl Check for C12 {
     }
     fn rule(&self, tier: Tier) -> String {
         let own = format!(
-            "version {{1.0, 1.1}} x Connection header {:?} at every position of a pipeline of 1..{} requests x following bytes {{nothing, a further complete request, garbage}} x client half-closing afterwards or not x application answering immediately or on a later signal; {} conversations; token-based reference model: requests after the connection-ending one are never delivered, the client sees exactly the answers of the received requests then end-of-stream; otherwise the connection stays open; after a client half-close everything received is answered, then end-of-stream || history family: EVERY pipeline of 2..{} requests over 10 (version, Connection) atoms {{2.0 absent/close (refused with 505, the connection goes on), 1.1 absent/keep-alive/close, 1.0 absent/keep-alive/'Keep-Alive, foo'/te/close}} x the same following bytes x half-close or not (the decision for a request is exercised after every kind of predecessor) || version {{1.0, 1.1}} x Connection {{absent, close, keep-alive}} x 7 sets of headers that look relevant but are not (Proxy-Connection, Keep-Alive, Upgrade without Connection: upgrade, X-Connection, Content-Encoding: chunked, Trailer, Range, Via ...) before or after the Connection header: the decision must be that of the request without them || connection-ending requests {{1.1 close, 1.0}} whose body (Content-Length 70000 / 200000, chunked, Expect) the client has sent only in part or not at all, answered without reading: end-of-stream must follow the answer while the client is still waiting || each atom after a history of 64 / 100 / 1024 (thorough: 19 lengths from 63 to 4097) answered exchanges x the same following bytes",
+            "version {{1.0, 1.1}} x Connection header {:?} at every position of a pipeline of 1..{} requests x following bytes {{nothing, a further complete request, garbage}} x client half-closing afterwards or not x application answering immediately or on a later signal; {} conversations; token-based reference model: requests after the connection-ending one are never delivered, the client sees exactly the answers of the received requests then end-of-stream; otherwise the connection stays open; after a client half-close everything received is answered, then end-of-stream || long Connection values (up to 4000 bytes of filler options with close / upgrade / keep-alive / Close / none starting at byte 52..66, 120..129, 250..257, 1020..1025, 3990 of the value, with or without further options behind, or first with 200 bytes behind) x version x position in a pipeline of 1..2 x followed by a request or nothing || history family: EVERY pipeline of 2..{} requests over 10 (version, Connection) atoms {{2.0 absent/close (refused with 505, the connection goes on), 1.1 absent/keep-alive/close, 1.0 absent/keep-alive/'Keep-Alive, foo'/te/close}} x the same following bytes x half-close or not (the decision for a request is exercised after every kind of predecessor) || version {{1.0, 1.1}} x Connection {{absent, close, keep-alive}} x 7 sets of headers that look relevant but are not (Proxy-Connection, Keep-Alive, Upgrade without Connection: upgrade, X-Connection, Content-Encoding: chunked, Trailer, Range, Via ...) before or after the Connection header: the decision must be that of the request without them || connection-ending requests {{1.1 close, 1.0}} whose body (Content-Length 70000 / 200000, chunked, Expect) the client has sent only in part or not at all, answered without reading: end-of-stream must follow the answer while the client is still waiting || each atom after a history of 64 / 100 / 1024 (thorough: 19 lengths from 63 to 4097) answered exchanges x the same following bytes",
             CONN_VALUES, if deep(tier) { 4 } else { 3 }, cases(tier).len(), if deep(tier) { 4 } else { 3 }
         );
         format!("{} || {} {:?}", own, crate::props::product::RULE, PRODUCT_CLAUSES)
